@@ -582,7 +582,7 @@ fn gen_typst(rng: &mut Rng, eol: &str) -> GenFile {
             3 => {
                 g.prose(rng, "markup", 1, 3, (0, 1));
                 g.raw(" `");
-                g.seg(Role::NonProse, "raw", "zxqv w\u{00F6}rld teh");
+                g.seg(Role::NonProse, "raw", &GenFile::junk(rng, "`\\", (2, 4)));
                 g.raw("` ");
                 g.prose(rng, "markup", 1, 3, (0, 1));
                 g.construct("raw");
@@ -590,7 +590,7 @@ fn gen_typst(rng: &mut Rng, eol: &str) -> GenFile {
             4 => {
                 g.prose(rng, "markup", 1, 3, (0, 1));
                 g.raw(" $");
-                g.seg(Role::NonProse, "math", "zxqv^2 + qwrtz");
+                g.seg(Role::NonProse, "math", *rng.pick(&["zxqv^2 + qwrtz", "\u{03B1} + \u{03B2} + \u{03B3} + \u{03B4}", "\u{2211}_\u{03B9} \u{03BE}_\u{03B9} \u{2264} \u{221E}", "\u{65E5}\u{672C} + \u{8A9E}^2"]));
                 g.raw("$ ");
                 g.prose(rng, "markup", 1, 3, (0, 1));
                 g.construct("math");
